@@ -130,6 +130,27 @@ CLAIMED = {
         note='trusted: z3, engine models (replayed per path), expected_entries in vf/harness/c16.py and '
              'the conformance oracle; map names that are not legal basic-keys are outside the statement',
         ref='DESIGN.md section 7 C16'),
+    'C18': dict(
+        text='REDUCED SCOPE. For all strings up to length 7 (quick) / 8 (thorough) over domain D z3 shows on every '
+             'path that url.urlnormalize, the wrapper logic of url.urljoin, BaseLoader.isPath, BaseLoader.'
+             'normalizeURL on URL-shaped input (fragment rejected, file:/x -> file:///x) and the name filter '
+             'of _url_from_file equal reference rules; the language of _pathsep_rx is proved equal to the RFC '
+             'scheme syntax for every length. The agreement of the four entry points on real directory trees, '
+             'working directories and file names is NOT covered.',
+        note='trusted: z3, engine models (replayed per path); urllib.parse.urldefrag, os.path.abspath and '
+             'pathname2url are stubbed for symbolic arguments; os/urllib I/O on real layouts cannot take '
+             'symbolic values and is outside the claim',
+        ref='DESIGN.md section 7 C18', engine='E1-VSE + E2-regex'),
+    'C19': dict(
+        text='For schema (extends / import src / package component) and configuration (%include chains, includes '
+             'inside a section, %import) scenarios on temp files, with the fault point a z3 integer pair '
+             '(which created resource / which read call; which urlopen; which stream read; which datatype call; '
+             'which section-datatype call), every feasible fault point is explored as a path: all objects created '
+             'through createResource are closed and all URL streams are closed when the call returns or raises, '
+             'and a following clean load gives the fresh outcome.',
+        note='trusted: the tracking wrappers around createResource (documented override point) and urlopen; the '
+             'fault spaces are finite and enumerated exhaustively through the solver; real file I/O is concrete',
+        ref='DESIGN.md section 7 C19'),
 }
 
 NOT_YET = 'harness not built yet in this revision (see DESIGN.md section 7 for the plan)'
